@@ -65,10 +65,6 @@ _C01_SIGNATURE = C01.signature
 
 
 def signature(c, f):
-    if f.get("kind") in ("bindings", "exception", "stdout") and "before_compare" in c["events"]:
-        import ast as _ast
-        if any(isinstance(n, _ast.Compare) and len(n.ops) > 1 for n in _ast.walk(_ast.parse(c["src"]))):
-            return "before_compare on a comparison chain: all comparators are evaluated eagerly (short-circuit lost)"
     return _C01_SIGNATURE(c, f)
 
 
